@@ -54,7 +54,7 @@ theorem C06_cursor (mm : MM) (cs : CStack) (s : St) (l : Letter) (h : cs.OK) : (
           rcases Nat.lt_or_ge cs.n cs.stack.length with h' | h'
           · exact h'
           · rw [List.getElem?_eq_none h'] at hc; cases hc
-        simp only [CStack.OK]; omega
+        simp only [CStack.OK, List.length_set]; omega
 
 /-- **Executing a new command discards the undone ones**: after a successful execute the cursor is at the end of
 the stack, whatever was undone before … -/
@@ -85,12 +85,27 @@ theorem C06_undo_empty (mm : MM) (cs : CStack) (s : St) (hn : cs.n = 0) : cstep 
 state (which is what the per-command laws below establish for the collection the command acts on). -/
 theorem C06_undo_redo (mm : MM) (cs : CStack) (s : St) (c : Cmd) (hn : 0 < cs.n)
     (hc : cs.stack[cs.n - 1]? = some c) (s1 : St)
-    (hu : c.undo mm s = (s1, .ok none)) (hr : c.redo mm s1 = (s, .ok none)) :
+    (hu : c.undo mm s = (s1, .ok none)) (hr : c.redo mm s1 = (s, .ok none))
+    (ha : c.after mm s1 = c) :      -- the redo pops the very element the undo put back
     (cstep mm (cstep mm cs s .undo).1 (cstep mm cs s .undo).2.1 .redo) = (cs, s, "ok") := by
   have h0 : cs.n ≠ 0 := by omega
   simp only [cstep, h0, if_false, hc, hu]
   have : cs.n - 1 + 1 = cs.n := by omega
-  simp only [hc, hr, this]
+  simp only [hc, hr, this, ha]
+  have hset : cs.stack.set (cs.n - 1) c = cs.stack := by
+    apply List.ext_getElem?
+    intro i
+    by_cases hi : i = cs.n - 1
+    · subst hi
+      rw [List.getElem?_set]
+      have hlt : cs.n - 1 < cs.stack.length := by
+        rcases Nat.lt_or_ge (cs.n - 1) cs.stack.length with h' | h'
+        · exact h'
+        · rw [List.getElem?_eq_none h'] at hc; cases hc
+      have hget := (List.getElem?_eq_some_iff.mp hc).2
+      simp [hlt, hget]
+    · rw [List.getElem?_set]; simp [Ne.symm hi]
+  rw [hset]
 
 /-! ### The collection a command acts on: inverse laws for every index (restated from `Lemmas/Commands.lean`) -/
 
